@@ -81,6 +81,10 @@ def cases(tier, seed):
         for n in (2304 - h - 1, 2304 - h, 2304 - h + 1, 4608 - h - 1, 4608 - h, 4608 - h + 1):
             for kind in ("dsk", "cas"):
                 yield {"kind": kind, "hist": [0, SAVE, "kb:{}:{}".format(kindname, n), SAVE, 1, SAVE]}
+    # names with punctuation in them (a stored name must not change when more files are appended)
+    for nm in ("V.1.2", "A.B", "END.", "A-B", "X,Y", "#1", "0A0"):
+        for kind in ("dsk", "cas"):
+            yield {"kind": kind, "hist": ["nm:" + nm, SAVE, 0, SAVE, 1, SAVE, 4, SAVE]}
     # ASCII files have no 16-bit length field on a disk: they may be larger than 65,535 bytes, up to the whole disk
     for kind in ("dsk", "cas"):
         for h in ([0, SAVE, "asc70000", SAVE, 1, SAVE], ["asc65536", SAVE, 0, SAVE], ["asc65535", SAVE, 0, SAVE], ["asc156671", SAVE, SAVE],
@@ -109,6 +113,8 @@ def file_of(case, sym):
     if isinstance(sym, str) and sym.startswith("g"):
         k = int(sym[1:])
         return c07.fspec("ML", k * 2304 - 10 - 100, "G{}".format(k), pat="ramp7")
+    if isinstance(sym, str) and sym.startswith("nm:"):
+        return c07.fspec("ML", 300, sym[3:], "BIN", pat="ramp7")
     if isinstance(sym, str) and sym.startswith("kb:"):
         _, kindname, n = sym.split(":")
         return c07.fspec(kindname, int(n), "KB" + n, "DAT", pat="ramp7")
@@ -310,7 +316,7 @@ def _compare(model, listed, kind):
 
 def describe(tier):
     return {
-        "alphabet": "operations add(f) for f in {} and save+re-open, on cassette and disk host files; every file kind at the 6 lengths around its first two granule boundaries between two other files; histories of 2-4 steps on the container object itself "
+        "alphabet": "operations add(f) for f in {} and save+re-open, on cassette and disk host files; files whose names hold punctuation (V.1.2, A.B, END., X,Y ...) followed by three appends; every file kind at the 6 lengths around its first two granule boundaries between two other files; histories of 2-4 steps on the container object itself "
                     "(add small / BASIC / ASCII / 30- and 40-granule files, re-open from bytes; additions that do not fit must be refused and leave the rest in place); ASCII files of 65535, 65536, 70000, 100000 bytes and of "
                     "exactly / one more than the whole disk (156671 / 156672 bytes) in 7 histories per medium; big-cassette histories with 65535-byte "
                     "files of 5 content patterns (incl. planted directory entries) crossing 161,280 bytes, and three files whose cassette image is "
